@@ -30,6 +30,31 @@ CLAIMED = {
         "against those constructors and against the declarative missing-coordinate clause by TLC (Trace_C06).",
    note="Exact lattice coordinates only (2^-6 degree quanta); collapsed synthesised rings are skipped per clause; GEOS computes the union.",
    ref="5 C06"),
+ "C02": dict(
+   text="TLC checks on a bounded universe that the declarative views of Cells.tla (element (e, n) of every accessor is "
+        "Tag(v, e, Unravel(n)); a hole keeps its slot) agree with operational models of the code's mechanisms (Arrays!Ravel = "
+        "move-to-end + reshape); recorded polygons, face centres, ravel of every gridded variable, select_index of every "
+        "cell of every grid kind and STRtree hits of generated datasets of every convention (skewed lattices, holes, "
+        "meshes to ~60 faces) are validated cell by cell against the single abstract cell function by TLC (Trace_Cells).",
+   note="Values are tags; centroid fall-back checked to 1/4 quantum inside the own convex cell.",
+   ref="5 C02"),
+ "C04": dict(
+   text="TLC checks that the lookup action returns the least valid intersecting cell and nothing otherwise, and validates the "
+        "integer point-in-closed-polygon oracle against an independent half-plane formulation on all lattice points of the "
+        "bounded universe; recorded get_index_for_point / select_point results at vertices (3-4-way ties), edge midpoints, "
+        "interiors, hole interiors, just-outside and far points on generated datasets (several STRtree leaves) are validated "
+        "by TLC (IffIntersects, LowestIndex, Coherent, NeverAHole).",
+   note="Exact lattice coordinates; GEOS 'intersects' is trusted to agree with exact arithmetic on them.",
+   ref="5 C04"),
+ "C05": dict(
+   text="TLC checks the declarative selection clause (SelectManyOK) against an operational gather (isel with a selector) for all "
+        "request lists with repeats on the bounded universe; recorded select_index / select_indexes / select_points / "
+        "extract_dataframe results (every grid kind, lists with repeats, hits / boundary hits / misses, three policies, custom "
+        "and default dimension names with collisions) are validated by TLC: exact values incl. missing, one entry per request in "
+        "order, other dimensions intact, other-grid and geometry variables absent, error payload = exactly the misses, drop "
+        "labels = original positions, fill rows missing.",
+   note="All-miss 'drop' lists and explicitly supplied duplicate dimension names are outside the quantifier and not generated.",
+   ref="5 C05"),
 }
 PENDING_REASON = "check not built yet in this round (specification and binding under construction; see DESIGN.md section 13)"
 props = [json.loads(l) for l in (V / "properties.jsonl").read_text().splitlines() if l.strip()]
